@@ -45,18 +45,9 @@ const (
 )
 
 // c17Excluded reports whether a generator shape is switched off because it reproduces a
-// finding that is listed as open in known_findings.json (or named in VERIF_C17_EXCLUDE, a
-// development aid).
+// finding that is listed as open in known_findings.json.
 func c17Excluded(id string) bool {
-	if vh.OpenFinding("C17", id) {
-		return true
-	}
-	for _, x := range strings.Split(os.Getenv("VERIF_C17_EXCLUDE"), ",") {
-		if x == id || x == "all" {
-			return true
-		}
-	}
-	return false
+	return vh.OpenFinding("C17", id)
 }
 
 type c17Op struct {
@@ -810,6 +801,11 @@ func c17Case(rt *rapid.T, rec *vh.Recorder) (*c17Mismatch, *c17CaseFile) {
 	sort.Strings(cl)
 	desc := fmt.Sprintf("doc %016x (%s, %d bytes, %d chunks) ops %s", verifJHash(docBytes), class, len(docBytes), nchunks, strings.Join(ops, "; "))
 	if rec != nil {
+		for _, c := range cl {
+			if strings.HasPrefix(c, "excluded:") {
+				rec.Excluded(1)
+			}
+		}
 		rec.Case(desc, nontrivial, cl...)
 	}
 	return nil, cf
@@ -879,7 +875,7 @@ func TestVerif_C17(t *testing.T) {
 		"where go-mysql-server's in-memory implementation is itself not usable as a reference only error presence is compared: paths that continue after a location that does not exist (it ignores the remaining legs), [0]/[last] on a non-array followed by further legs (it drops them), Lookup with \\\" in a member name (its jsonpath library cannot parse it; there the expected value is taken from the document when every leg exists), and paths on which it panics")
 	defer rec.Write(t)
 	t.Run("pinned", c17RunPins)
-	vh.Check(t, "docs", 1500, 6000, func(rt *rapid.T) {
+	vh.Check(t, "docs", 5000, 12000, func(rt *rapid.T) {
 		if m, _ := c17Case(rt, rec); m != nil {
 			rt.Fatalf("%s", m.msg)
 		}
